@@ -41,7 +41,7 @@ CLA_RULE = ("one evaluation = one seeded trace over {register, register same add
             "replayed against the real cla.Manager under the fake clock and compared step by step with a reference state machine; non-trivial = at least one "
             "failed start or peer loss happened; distinct = distinct canonical log (listing + per-adapter Start/Close history after every step).")
 
-STORE_RULE = ("one evaluation = one seeded operation sequence over {push bundle, push fragment (grid-aligned and odd ranges: exact covers, overlaps, containment, duplicates), "
+STORE_RULE = ("one evaluation = one seeded operation sequence over {push bundle, push fragment (grid-aligned and odd ranges: exact covers, overlaps, containment, duplicates), push the whole bundle for a bundle otherwise pushed in fragments, "
               "two concurrent fragment pushes released in a seeded order at the store's write hooks, update pending/property/expiry, a metadata update through an item fetched before the record was deleted / swept, delete, expiry sweep, advance, close+reopen}, "
               "with a crash armed at the 1st..3rd instrumented point inside 30% of the pushes/deletes (half of them: the directory is copied while the operation is parked there and a store - in a third of the runs a whole "
               "node - is opened on the copy, then the operation completes; the other half: the operation is aborted at that point for good, the store is closed and reopened on the surviving directory and the run goes on); compared with an in-memory reference map after every operation. Non-trivial = a crash point, an interleaving "
